@@ -488,6 +488,31 @@ func runC09Third(c *Ctx) {
 		}
 		c.check(seen, "C09.lock-table", "getLocker falls back to the last world-locker", f.Pos(), "return lastWorldLocker", "no exit returns the last world-locker")
 	}
+	// Realize leaves its collecting loop without queueing the state it just locked only when that
+	// state is already committed
+	if f := c.mustFn(pkg, "worldVirtualState", "Realize"); f != nil {
+		n := 0
+		for _, cs := range c.calls(f, byMethod("Lock")) {
+			h := loopHeaderOf(cs.Instr.Block())
+			if h == nil {
+				continue
+			}
+			body := loopBody(h)
+			n++
+			_, skip := pathAvoidingEdges(f, cs.Instr, func(in ssa.Instruction) bool { return !body[in.Block()] }, func(in ssa.Instruction) bool {
+				cl, ok := in.(*ssa.Call)
+				if !ok {
+					return false
+				}
+				b, isB := cl.Call.Value.(*ssa.Builtin)
+				return isB && b.Name() == "append"
+			}, wDiffer("already committed", `\.committed$`, `^nil$`))
+			c.check(!skip, "C09.commit-then-done", "Realize queues every locked, uncommitted state", cs.Pos(), "append(wsList, ws) on every path out of the loop except committed != nil", "a state that is locked and not yet committed can leave the collecting loop without being queued (for instance one that has a base but is still executing): nobody waits for its commit and its snapshot is never taken")
+		}
+		if n == 0 {
+			c.undecided("C09.commit-then-done", "Realize", f.Pos(), "no mutex.Lock inside the collecting loop")
+		}
+	}
 	// a handler that moves value write-locks both ends
 	if f := c.mustFn("service/contract", "CommonHandler", "Prepare"); f != nil {
 		m := 0
